@@ -137,6 +137,8 @@ def build(scn, pool, log):
                 return None if r == NONE else (r // 16 if r % 16 == 0 and rid in ("r1", "r2") else r / 16)
             return rule
         rules = [(thr / 16 if i % 2 else (thr // 16 if thr % 16 == 0 else thr / 16), mk(rid)) for i, (thr, rid) in enumerate(scn["rules"])]
+        if scn.get("reals") is not None:
+            rules = [(real_of(scn["reals"], thr), mk(rid)) for thr, rid in scn["rules"]]
         how = (len(scn["rules"]) + scn["iv"]) % 3
         if how == 0:
             return Stepwise(pool, mk(scn["base"]), *rules, interval=scn["iv"] / 4)
@@ -174,7 +176,7 @@ def build(scn, pool, log):
             return c
         flat = []
         for i, (thr, sid) in enumerate(scn["slaves"]):
-            flat += [thr / 16 if i % 2 else (thr // 16 if thr % 16 == 0 else thr / 16), mk(sid)]
+            flat += [real_of(scn["reals"], thr) if scn.get("reals") is not None else thr / 16 if i % 2 else (thr // 16 if thr % 16 == 0 else thr / 16), mk(sid)]
         return DemandSwitch(pool, mk(scn["default"]), *flat)
     raise ValueError(k)
 
@@ -193,12 +195,31 @@ class EqPool(RecPool):
         return 7
 
 
-def observe(pool):
-    return {"supply": to_grid(pool._supply, 16), "demand": to_grid(pool._demand, 16), "util": to_grid(pool._utilisation, 4), "alloc": to_grid(pool._allocation, 4)}
+def real_of(reals, v):
+    """rank scenarios: the model's value 16 * r stands for the r-th of an ascending list of
+    arbitrary floats (neighbouring floats, one ulp apart, among them): only ORDER matters to
+    the selection of a rule or slave, and order is all the model is told"""
+    return reals[v // 16]
 
 
-def apply_set(pool, attr, v):
-    if attr == "supply":
+def rank_of(reals, x):
+    for r, y in enumerate(reals):
+        if x == y and type(x) is type(y):
+            return 16 * r
+    return OFFGRID
+
+
+def observe(pool, reals=None, ranked=None):
+    out = {"supply": to_grid(pool._supply, 16), "demand": to_grid(pool._demand, 16), "util": to_grid(pool._utilisation, 4), "alloc": to_grid(pool._allocation, 4)}
+    if reals is not None:
+        out[ranked] = rank_of(reals, getattr(pool, "_" + ranked))
+    return out
+
+
+def apply_set(pool, attr, v, reals=None, ranked=None):
+    if reals is not None and attr == ranked:
+        setattr(pool, "_" + attr, real_of(reals, v))
+    elif attr == "supply":
         pool._supply = v / 16
     elif attr == "demand":
         pool._demand = v / 16 if v % 16 else v // 16
@@ -211,8 +232,11 @@ def apply_set(pool, attr, v):
 def execute(case):
     """case: {scn, pool:{supply,demand,util,alloc}, ops:[{e:"Step",iv}|{e:"Set",attr,v}]}"""
     scn, p0 = case["scn"], case["pool"]
+    reals, ranked = case.get("reals"), case.get("ranked")
     cls = EqPool if scn["kind"] == "switch" and (len(case["ops"]) + p0["util"]) % 2 else RecPool
     pool = cls(supply=p0["supply"] / 16, demand=p0["demand"] / 16, utilisation=p0["util"] / 4, allocation=p0["alloc"] / 4)
+    if reals is not None:
+        setattr(pool, "_" + ranked, real_of(reals, p0[ranked]))
     log = CallLog()
     events = []
     raised = []
@@ -221,11 +245,11 @@ def execute(case):
         calls = list(log)
         del log[:]
         # (a step that raised is a step in which nothing was called the way it should have been)
-        events.append({"e": "Step", "iv": iv, "p": observe(pool), "called": [c[0] for c in calls], "argsok": all(c[1] for c in calls) and not raised, "raised": ",".join(raised)})
+        events.append({"e": "Step", "iv": iv, "p": observe(pool, reals, ranked), "called": [c[0] for c in calls], "argsok": all(c[1] for c in calls) and not raised, "raised": ",".join(raised)})
         del raised[:]
 
     try:
-        ctrl = build(scn, pool, log)
+        ctrl = build(dict(scn, reals=reals) if reals is not None else scn, pool, log)
     except Exception as ex:  # noqa: a controller that cannot even be built with legal parameters
         raised.append("build:" + type(ex).__name__)
         step_event(next((op["iv"] for op in case["ops"] if op["e"] == "Step"), 4))
@@ -234,7 +258,7 @@ def execute(case):
     if scn["kind"] != "stepwise":
         for op in case["ops"]:
             if op["e"] == "Set":
-                apply_set(pool, op["attr"], op["v"])
+                apply_set(pool, op["attr"], op["v"], reals, ranked)
                 events.append(dict(op))
             else:
                 log.expected_interval = op["iv"] / 4
@@ -257,7 +281,7 @@ def execute(case):
                 started = False
                 for op in ops:
                     if op["e"] == "Set":
-                        apply_set(pool, op["attr"], op["v"])
+                        apply_set(pool, op["attr"], op["v"], reals, ranked)
                         events.append(dict(op))
                     else:
                         if not started:
@@ -316,7 +340,44 @@ def random_case(rnd, fams):
             attr = rnd.choice(["supply", "demand", "util", "alloc"])
             v = rnd.choice(sup) if attr in ("supply", "demand") else rnd.randrange(0, 5)
             ops.append({"e": "Set", "attr": attr, "v": v})
-    return {"scn": scn, "pool": pool, "ops": ops}
+    case = {"scn": scn, "pool": pool, "ops": ops}
+    if kind in ("switch", "stepwise") and rnd.random() < 0.3:
+        rank_variant(rnd, case)
+    return case
+
+
+def rank_variant(rnd, case):
+    """thresholds and the compared quantity (a switch compares demand, a stepwise controller
+    supply) become arbitrary floats of which the model only knows the order; neighbouring
+    floats - one ulp apart - are among them.  Nothing may do arithmetic on the ranked quantity:
+    the slaves of a switch are kept in their neutral zone (they leave demand alone)"""
+    import math
+
+    scn, kind = case["scn"], case["scn"]["kind"]
+    R = 12
+    x = rnd.choice([0.8, 0.1, 0.7 + 0.1, 3.0, 1e9 + 0.5, 1e-9, 123456.789])
+    reals = [x]
+    for _ in range(R - 1):
+        x = math.nextafter(x, math.inf) if rnd.random() < 0.7 else x * rnd.choice([1.0000000001, 1.5, 2.0])
+        if x <= reals[-1]:
+            x = math.nextafter(reals[-1], math.inf)
+        reals.append(x)
+    key = "slaves" if kind == "switch" else "rules"
+    ranks = rnd.sample(range(R), len(scn[key]))
+    scn[key] = [[16 * r, i] for r, (_, i) in zip(ranks, scn[key])]
+    ranked = "demand" if kind == "switch" else "supply"
+    case["pool"][ranked] = 16 * rnd.randrange(R)
+    if kind == "switch":
+        case["pool"]["util"], case["pool"]["alloc"] = rnd.choice([2, 3, 4]), rnd.choice([0, 1, 2])
+    ops = []
+    for op in case["ops"]:
+        if op["e"] == "Set":
+            if kind == "switch" and op["attr"] in ("util", "alloc"):
+                continue
+            op = {"e": "Set", "attr": ranked, "v": 16 * rnd.randrange(R)} if op["attr"] in (ranked, "util", "alloc") else op
+        ops.append(op)
+    case["ops"] = ops
+    case["reals"], case["ranked"] = reals, ranked
 
 
 def dedupe_sets(case):
